@@ -334,12 +334,18 @@ fn c05_family<S: Sch>(t: Tier, seed: u64, out: &mut Vec<Entry>) {
         if quick { en.lim.wall_s = 45.0; }
         out.push(en);
     };
-    add("equiv-2p2z-cross", mk(2, 2, vec![(0, 0), (1, 0), (0, 1), (1, 1)]), Box::new(|c| c05::equiv::<S>(c, 3, false)));
-    add("equiv-1p2z", mk(1, 2, vec![(0, 0), (0, 1)]), Box::new(|c| c05::equiv::<S>(c, 3, false)));
+    // error-term configurations: challenges take their natural values and the points are concrete, so the
+    // two decisions are linear systems in the symbolic errors (cancelling error vectors are then found
+    // or excluded by the solver); one variant keeps points and challenges symbolic
+    let lin = |mut c: Cfg| -> Cfg { c.sym_ch = false; c.sym_points = false; c };
+    add("equiv-2p2z-cross", lin(mk(2, 2, vec![(0, 0), (1, 0), (0, 1), (1, 1)])), Box::new(|c| c05::equiv::<S>(c, 3, false)));
+    add("equiv-1p2z", lin(mk(1, 2, vec![(0, 0), (0, 1)])), Box::new(|c| c05::equiv::<S>(c, 3, false)));
+    add("equiv-1p2z-symbolic-points", mk(1, 2, vec![(0, 0), (0, 1)]), Box::new(|c| c05::equiv::<S>(c, 3, false)));
     add("equiv-honest-3p3z", mk(3, 3, vec![(0, 0), (1, 0), (1, 1), (2, 1), (2, 2), (0, 2)]), Box::new(|c| c05::equiv::<S>(c, 2, true)));
-    add("equiv-1p3z", mk(1, 3, vec![(0, 0), (0, 1), (0, 2)]), Box::new(|c| c05::equiv::<S>(c, 4, false)));
+    add("equiv-1p3z", lin(mk(1, 3, vec![(0, 0), (0, 1), (0, 2)])), Box::new(|c| c05::equiv::<S>(c, 4, false)));
+    add("equiv-2p3z", lin(mk(2, 3, vec![(0, 0), (1, 0), (0, 1), (1, 2)])), Box::new(|c| c05::equiv::<S>(c, 4, false)));
     if !quick {
-        add("equiv-3p3z", mk(3, 3, vec![(0, 0), (1, 0), (1, 1), (2, 1), (2, 2), (0, 2)]), Box::new(|c| c05::equiv::<S>(c, 4, false)));
+        add("equiv-3p3z", lin(mk(3, 3, vec![(0, 0), (1, 0), (1, 1), (2, 1), (2, 2), (0, 2)])), Box::new(|c| c05::equiv::<S>(c, 4, false)));
     }
     for (id, m) in [("plist-truncate", ListMut::Truncate), ("plist-empty", ListMut::Empty), ("plist-swap", ListMut::Swap), ("plist-dup", ListMut::Dup), ("plist-surplus", ListMut::Surplus)] {
         let mut c = mk(2, 2, vec![(0, 0), (1, 1)]);
@@ -1004,7 +1010,7 @@ fn catalogue_inner(prop: &str, t: Tier, seed: u64, out: &mut Vec<Entry>) {
                 if quick { en.lim.wall_s = 45.0; en.lim.max_runs = 12; } else { en.lim.max_runs = 60; }
                 out.push(en);
             };
-            let ladder: Vec<usize> = if quick { vec![2, 4, 16, 33] } else { vec![2, 3, 4, 8, 16, 33, 64, 128] };
+            let ladder: Vec<usize> = if quick { vec![2, 3, 7, 16, 33] } else { vec![2, 3, 4, 7, 8, 15, 16, 33, 64, 128] };
             for d in &ladder {
                 let d = *d;
                 for (tag, bound, hid) in [("plain", None, None), ("bound", Some(d), None), ("hiding", None, Some(1usize)), ("bound-hiding", Some(d), Some(1))] {
